@@ -5,6 +5,8 @@ package codec
 
 import (
 	"bytes"
+	"sync"
+	"sync/atomic"
 	"encoding/binary"
 	"fmt"
 	"reflect"
@@ -603,5 +605,82 @@ func TestVerifC14(t *testing.T) {
 			}
 			h.Distinct("frame", in)
 		}
+	}
+}
+
+
+// TestVerifC11Pool: encoders drawn from the shared pool by many goroutines at once (race build). Every goroutine encodes
+// values whose encoding was computed beforehand with a private encoder, returns the encoder to the pool at once (as the
+// repository's callers do with `defer PutEncoder`) and only then compares the bytes it was handed: a pooled buffer that
+// leaks into a result, or two goroutines sharing one encoder, shows as a wrong encoding or as a race report.
+func TestVerifC11Pool(t *testing.T) {
+	h := vh.Open(t, "C11")
+	defer h.Done()
+	types.SetTinyMode()
+	rounds := h.N(40, 400)
+	for ci := 0; ci < rounds; ci++ {
+		if !h.Mine("pool", ci) {
+			continue
+		}
+		h.CaseLight("pool", ci)
+		r := h.Rng("pool", ci)
+		type job struct {
+			name string
+			v    any
+			want []byte
+		}
+		var jobs []job
+		for len(jobs) < 200 {
+			rt := roots[r.IntN(len(roots))]
+			v := rt.mk()
+			vgen.Fill(r, v)
+			enc, err := encode(v)
+			if err != nil || len(enc) > 4096 {
+				continue
+			}
+			jobs = append(jobs, job{rt.name, v, enc})
+		}
+		G := []int{2, 4, 16, 32}[ci%4]
+		var wg sync.WaitGroup
+		var bad atomic.Int64
+		var firstBad atomic.Value
+		for g := 0; g < G; g++ {
+			wg.Add(1)
+			go func(g int) {
+				defer wg.Done()
+				gr := vh.NewR(uint64(ci)*977+uint64(g), 0xC11)
+				held := make([][]byte, 0, 8)
+				wants := make([][]byte, 0, 8)
+				for k := 0; k < 300; k++ {
+					j := jobs[gr.IntN(len(jobs))]
+					e := types.GetEncoder()
+					e.SetHashSegmentMap(types.HashSegmentMap{})
+					out, err := e.Encode(j.v)
+					types.PutEncoder(e)
+					if err != nil {
+						bad.Add(1)
+						firstBad.CompareAndSwap(nil, j.name+": "+err.Error())
+						continue
+					}
+					held = append(held, out)
+					wants = append(wants, j.want)
+					if len(held) == 8 || k == 299 { // compare late: other goroutines have reused the pooled encoders by now
+						for i := range held {
+							if !bytes.Equal(held[i], wants[i]) {
+								bad.Add(1)
+								firstBad.CompareAndSwap(nil, j.name+": bytes handed out by a pooled encoder changed or differ from a private encoder's")
+							}
+						}
+						held, wants = held[:0], wants[:0]
+					}
+				}
+			}(g)
+		}
+		wg.Wait()
+		if bad.Load() > 0 {
+			h.Viol("pool", ci, "", "determinism: concurrent use of pooled encoders gives other bytes than a private encoder", map[string]any{"goroutines": G, "mismatches": bad.Load(), "first": firstBad.Load()})
+		}
+		h.Count("pooled_encodings_under_concurrency", int64(G*300))
+		h.Distinct("pool", ci)
 	}
 }
